@@ -456,6 +456,11 @@ ADDENDA = {
     "C13": "The body's throw step has an exception kind (application type, the library's own no_more_values / value_not_ready / await_canceled / "
            "no_longer_available types, a non-std type: ExceptionAtPosition for every kind) and the consumer may keep one next() object and await / convert it "
            "repeatedly (styles kco / kbool, SameSequence).",
+    "C14": "A failing source has an exception kind (user type, the library's own value_not_ready / no_more_values / await_canceled types, a non-std type): "
+           "ExceptionReportedOthersKept demands that exactly what left the source (object identity and dynamic type) is what the consumer gets, in every access style.",
+    "C19": "Completion under promise_extra_storage is two ordered steps (DtorBegin: the attached object's destructor runs, other creations enabled; DtorEnd: the block "
+           "goes back to the base policy; ExtraDiesInOwnBlock), and every frame carries its address relative to the area its policy owns (heap block, buffer at "
+           "any alignment offset, stack area, placement area) with LargeEnough / Exclusive stated over address ranges.",
     "C16": "Degenerate publishes are actions of the spec and replayed: the empty batch (a self-loop that must wake nobody), a batch longer than the window, "
            "publish on a closed publisher, subscription ahead of the stream; the range is passed as vector, list or pointer pair.",
     "C17": "The blocking entry points of shared_future itself are waiting forms of the spec (wait / sync+value / force_sync / join / force_wait, the force_ forms "
